@@ -112,6 +112,14 @@ def mapOp (c : MapCtx) (op : String) (arg : String) : String :=
       let b ← mapExh c
       pure s!"ok 1,{fmtB b},1,1,{fmtB (mapAlwaysExh c)},1")
   | "ext" => "ok " ++ fmtL c.es
+  | "dflt" =>
+    -- default construction: extents are the static values, 0 at the dynamic positions
+    let es0 : List Int := c.pat.map (fun p => match p with | some v => c.T.wrap v | none => 0)
+    let d : MapCtx := { c with es := es0, pv := none }
+    showS (do
+      let st ← (if c.kind == "stride" then defaultStridesM c.T es0 else (List.range es0.length).mapM (fun r => mapStride d r))
+      let sp ← (if c.kind == "stride" then spanStrideM c.T es0 st else mapSpan d)
+      pure s!"ok e={fmtL es0} s={fmtL st} span={sp}")
   | "adm" => s!"ok {fmtB (mapAdm c)}"
   | _ => "bad-op"
 
